@@ -172,7 +172,9 @@ kind_harness!(c14_kind_pawn_4, 0, 4, 6); kind_harness!(c14_kind_knight_4, 1, 4, 
 /// piece census a position can have): pure (independent of the evaluator's previous state),
 /// exact negation under side-to-move swap, and |score| < 20000 < 32767.
 pub static mut CONTRIB: [(i32, i32, i32); 6] = [(0, 0, 0); 6];
-pub static mut STUB_CALLS: u32 = 0;
+pub struct EvState { pub magic: u64, pub stub_calls: u32 }
+/// (struct with a sentinel field: Kani 0.68 was seen to share a zero-initialised pub static scalar with a constant)
+pub static mut EVS: EvState = EvState { magic: 0x5EED_E7A1_0BAD_F00D, stub_calls: 0 };
 fn any_census_contrib() {
     // counts per side and kind; a side has one king, at most 8 pawns and at most 15 non-king men,
     // and officers beyond the initial 2/2/2/1 come from promoted pawns
@@ -212,9 +214,9 @@ pub fn c14_compose() {
     let mut bb = wb; bb.active_color = Color::Black;
     let mut e1 = ev::with_state(sym::i32(), sym::i32(), sym::i32());
     let mut e2 = ev::with_state(0, 0, 0);
-    unsafe { STUB_CALLS = 0; }
+    unsafe { EVS.stub_calls = 0; }
     let s1 = e1.evaluate(&wb);
-    vassert!(unsafe { STUB_CALLS } == 6, "C14: evaluate does not visit each of the six piece kinds exactly once");
+    vassert!(unsafe { EVS.stub_calls } == 6, "C14: evaluate does not visit each of the six piece kinds exactly once");
     let s2 = e2.evaluate(&wb);
     vassert!(s1 == s2, "C14: score depends on what the evaluator computed before");
     let s3 = e1.evaluate(&bb);
